@@ -59,6 +59,15 @@ theorem HInv_step_grow (x y : P2P × TLState) (gh : Ghost) (hx : SessInv x.1 gh 
         show sy3.queues.length = _
         rw [hq3, hc2.sync, hsettled.nq, ← b]
       rw [← a, hlen, b]
+    | localInput s t handle input =>
+      obtain ⟨l, hl⟩ := P2P.addLocalInput_pending s handle input
+      show ∃ gh', SessInv (s.addLocalInput handle input).1 gh' t [] ∧ GlueInv (s.addLocalInput handle input).1 gh' ∧
+        (s.addLocalInput handle input).1.sync.queues.length = s.sync.queues.length ∧ _
+      rw [hl]
+      exact ⟨gh, SessInv_pending s gh t [] l hx, GlueInv_pending s gh l hgx, rfl, fun p => Nat.le_refl _⟩
+    | saves s t sv =>
+      exact ⟨gh, SessInv_userExecute s gh t [] sv hx, GlueInv_userExecute s gh sv hgx,
+        by rw [(userExecute_fields s sv).1], fun p => Nat.le_refl _⟩
   | setDelay s s' t now handle delay r hloc hp hset =>
     obtain ⟨gh', hinv', hg', hcase, _, _, _, _, _, _, _, _, hq⟩ := setInputDelay_spec s s' gh t [] now handle delay r hx hgx hloc hp hset
     refine ⟨gh', hinv', hg', hq, ?_⟩
